@@ -359,6 +359,7 @@ def run(ctx, rep):
     import api_rules as AR
     AR.check_frame_api(fx, rep, "C01.api")
     AR.check_mapper_constructors(fx, rep, "C01.api")
+    AR.check_mapping_wiring(fx, rep, "C01.api")
     run_controls(ctx, rep)
 
 
